@@ -11,7 +11,8 @@ RULE = ("cases: (a) random source = product of <=3 factors (|exp|<=3) of registe
         "redundant declarations, each in a fresh process.  distinct = multiset over both sides of (dimension, "
         "sign, |exponent|, derived-dimension base unit?, prefixed?); non-trivial = source is not target and the "
         "conversion returned a value that the oracle checked"
-        " One shard runs under non-default decimal contexts (7-40 digits, traps on/off) with mostly Decimal magnitudes; a finite magnitude converted to NaN is a violation; prefixes of the user's own in other bases; synthetic systems state a fifth of their equivalences from a prefixed form of the unit and re-declare leaves after queries.")
+        " One shard runs under non-default decimal contexts (7-40 digits, traps on/off) with mostly Decimal magnitudes; a finite magnitude converted to NaN is a violation; prefixes of the user's own in other bases; synthetic systems state a fifth of their equivalences from a prefixed form of the unit and re-declare leaves after queries."
+        " One shard asks the same and different first-time questions from two threads at once (deterministic scheduler, exact expected answers).")
 ASSUMPTIONS = [
     "unit sizes are solved from the intercepted equals()/scale() declarations in exact rational arithmetic; "
     "where shipped declarations disagree the oracle is the interval spanned by neighbouring spanning trees",
